@@ -33,9 +33,16 @@ static EncDecTasks task_pool[NTASK]; static EbObjectWrapper task_wr[NTASK];
 static int task_used, q_head, q_tail; static EbObjectWrapper *queue[NTASK + 1];
 EbErrorType svt_get_empty_object(EbFifo *f, EbObjectWrapper **w) {
     (void)f; V_ASSERT(task_used < NTASK, "harness task pool large enough"); V_ASSUME(task_used < NTASK);
+    /* task objects are recycled by the real pool: hand them out with stale (poisoned) contents */
+    task_pool[task_used].tile_group_index = 0x7ABC; task_pool[task_used].pcs_wrapper_ptr = NULL; task_pool[task_used].input_type = 0x55; task_pool[task_used].enc_dec_segment_row = 0x7ABC;
     task_wr[task_used].object_ptr = &task_pool[task_used]; *w = &task_wr[task_used++]; return EB_ErrorNone;
 }
-EbErrorType svt_post_full_object(EbObjectWrapper *w) { queue[q_tail++] = w; return EB_ErrorNone; }
+static EbObjectWrapper v_pcs_wrapper; static EncDecTasks first;
+EbErrorType svt_post_full_object(EbObjectWrapper *w) {
+    EncDecTasks *t = (EncDecTasks *)w->object_ptr;
+    V_ASSERT(t->input_type == ENCDEC_TASKS_ENCDEC_INPUT && t->pcs_wrapper_ptr == first.pcs_wrapper_ptr && t->tile_group_index == first.tile_group_index,
+             "a feedback task names the picture and the tile group of the task that produced it (no stale field of the recycled task object)");
+    queue[q_tail++] = w; return EB_ErrorNone; }
 
 /* ---- lock discipline: data of segment row r changes only while row r's mutex is held ---- */
 static uint16_t snap_cur[MAXSEG]; static uint8_t snap_dep[MAXSEG * 2 * MAXSEG]; static int in_cs = -1;
@@ -105,7 +112,7 @@ void harness(void) {
     /* workers */
     int busy[NWORK]; uint16_t cur[NWORK]; EncDecTasks wtask[NWORK];
     for (int w = 0; w < NWORK; w++) busy[w] = 0;
-    static EncDecTasks first; first.input_type = ENCDEC_TASKS_MDC_INPUT; static EbObjectWrapper firstw; firstw.object_ptr = &first;
+    first.input_type = ENCDEC_TASKS_MDC_INPUT; first.tile_group_index = 1; first.pcs_wrapper_ptr = &v_pcs_wrapper; static EbObjectWrapper firstw; firstw.object_ptr = &first;
     queue[q_tail++] = &firstw;
     for (int step = 0; step < NSTEPS; step++) {
         int w = (int)vin_range(0, NWORK - 1);
